@@ -158,7 +158,10 @@ class Regex(RegexReader):
         s_initial = self._set_and_get_initial_state_in_enfa()
         s_final = self._set_and_get_final_state_in_enfa()
         self._process_to_enfa(s_initial, s_final)
-        return self._enfa
+        # The automaton given away must not be the one cached by accepts
+        enfa = self._enfa
+        self._enfa = None
+        return enfa
 
     def _set_and_get_final_state_in_enfa(self):
         s_final = self._get_next_state_enfa()
@@ -251,6 +254,8 @@ class Regex(RegexReader):
         self.sons[index_son]._enfa = self._enfa
         self.sons[index_son]._process_to_enfa(s_from, s_to)
         self._counter = self.sons[index_son]._counter
+        # The son must not keep the automaton of its parent
+        self.sons[index_son]._enfa = None
 
     def get_tree_str(self, depth: int = 0) -> str:
         """ Get a string representation of the tree behind the regex
